@@ -45,6 +45,11 @@ var c13Inval = []struct {
 	// occur in the call's receiver or arguments
 	{"assign-slice-element-of-receiver-fact", func() *grl.Rule { return grl.R("vElem", grl.Sal(2), "F.Arr[0] < 2", "F.Arr[0] = F.Arr[0] + 1") }, false},
 	{"assign-map-entry-of-receiver-fact", func() *grl.Rule { return grl.R("vEntry", grl.Sal(2), `F.M["a"] < 2`, `F.M["a"] = F.M["a"] + 1`) }, false},
+	// rules whose condition FAILS in every cycle (a panicking user method, a nil pointer, an index out of
+	// range): they are simply not candidates and concern no remembered value
+	{"failing-condition-panicking-method", func() *grl.Rule { return grl.R("vBoom", grl.Sal(3), "G.Boom()", "G.I16 = 1") }, false},
+	{"failing-condition-nil-pointer", func() *grl.Rule { return grl.R("vNil", grl.Sal(3), "G.P.V == 1", "G.I16 = 1") }, false},
+	{"failing-condition-index", func() *grl.Rule { return grl.R("vIdx", nil, "G.Arr[9] == 1", "G.I16 = 1") }, false},
 }
 
 func judgeC13(c *Case, tr *hx.Trace, w *ref.World) []Verdict {
